@@ -118,7 +118,7 @@ IGNORED_CALLS = ('effect::Effect::process', 'effect::Effect::on_start_processing
 
 
 class Lin:
-    def __init__(self, F, roots, source_params):
+    def __init__(self, F, roots, source_params, source_class=S):
         """roots: body paths to analyse (callees with a kira body are pulled in); source_params: {body path: [arg index]}
         locals that hold the signal."""
         self.F = F
@@ -170,9 +170,14 @@ class Lin:
             self.constrain(b)
         for f in self.stored_fields:
             self.cls[('F',) + f] = Z          # state starts cleared
+        for p in roots:
+            b = self.bodies.get(p)
+            if b is not None:
+                for i in range(1, b.arg_count + 1):
+                    self.cls[(p, i)] = C          # dt, info, ... : independent of the signal
         for p, idxs in source_params.items():
             for i in idxs:
-                self.cls[(p, i)] = S
+                self.cls[(p, i)] = source_class
         self.solve()
 
     # ------------------------------------------------------------------ nodes
@@ -397,6 +402,15 @@ class Lin:
                 for a in srcs:
                     self.add('flow', a, [dnode], b, bb, ('alias', line))
             return
+        if ('<impl f32>' in cp or '<impl f64>' in cp) and dnode is not None:
+            zp = nm in ('abs', 'sqrt', 'sin', 'tan', 'tanh', 'sinh', 'asin', 'atan', 'signum', 'trunc', 'floor', 'ceil', 'round', 'cbrt', 'to_degrees', 'to_radians')
+            if nm == 'clamp' and len(t['args']) == 3 and is_const(t['args'][1]) and is_const(t['args'][2]):
+                lo, hi = const_value(t['args'][1]), const_value(t['args'][2])
+                zp = lo is not None and hi is not None and lo <= 0 <= hi
+            if zp:
+                # f(0) == 0: exact zero goes through, anything else is an unknown function of its argument
+                self.add('zp', dnode, args[:1], b, bb, (cp, line))
+                return
         cmpc = nm in ('lt', 'le', 'gt', 'ge', 'eq', 'ne', 'partial_cmp', 'cmp', 'total_cmp')
         if cmpc:
             self.add('cmp', ('B', b.path, bb, -1), args, b, bb, (cp, line))
@@ -427,6 +441,8 @@ class Lin:
             return f_mul(v[0], v[1])
         if kind == 'div':
             return f_div(v[0], v[1])
+        if kind == 'zp':
+            return v[0] if v[0] in (BOT, Z) else f_opaque(v[0])
         if kind == 'opaque':
             r = BOT
             for x in v:
